@@ -11,7 +11,10 @@ import (
 	"fmt"
 	"io"
 
+	"github.com/tink-crypto/tink-go/v2/streamingaead"
 	"verif/h"
+	"verif/ref"
+	"verif/tk"
 )
 
 func manySegmentsSection(x *h.X) {
@@ -111,4 +114,96 @@ func manySegmentsSection(x *h.X) {
 		}
 	}
 	x.Outcome(fmt.Sprintf("many-segments/%s/%d", c.Scheme, nseg))
+}
+
+// Section keyset-mixed-segment-sizes: a keyset whose keys share scheme, derived key size (hence header length) and
+// hash but differ in SEGMENT SIZE. The matching key is tried after a key with (much) larger segments that consumed
+// more of the stream than the matching key's first segments hold; the stream is several segments of the matching
+// key long and is read in large and small pieces. Whatever the earlier candidates consumed is replayed in full.
+func mixedSegmentsSection(x *h.X) {
+	scheme := h.Pick(x, "scheme", []string{"GCMHKDF", "CTRHMAC"})
+	sizes := h.Pick(x, "segment-sizes(other,matching)", [][2]int{{1 << 20, 4096}, {8192, 256}, {4096, 4097}, {256, 1 << 16}})
+	order := h.Pick(x, "matching-key-position", []int{1, 0, 2})
+	rchunk := h.Pick(x, "read-chunk", []int{0, 1 << 16, 4096, 100}) // 0 = io.ReadAll
+	mkc := func(label string, seg int) (cfg, []byte) {
+		c := mk(scheme, 32, 32, "SHA256", map[string]string{"GCMHKDF": "", "CTRHMAC": "SHA256"}[scheme], map[string]int{"GCMHKDF": 16, "CTRHMAC": 32}[scheme], 0, 0, "keyset")
+		c.SegmentSize = seg
+		return c, ref.KeyBytes("c07-mixed-"+label, 32)
+	}
+	cm, kbm := mkc("matching", sizes[1])
+	cm.MainKey = kbm
+	co, kbo := mkc("other", sizes[0])
+	co2, kbo2 := mkc("other2", sizes[0]*2)
+	km, err := streamKey(cm, kbm)
+	if err != nil {
+		x.Fail("construct", "%v", err)
+		return
+	}
+	ko, err := streamKey(co, kbo)
+	if err != nil {
+		x.Fail("construct", "%v", err)
+		return
+	}
+	ko2, err := streamKey(co2, kbo2)
+	if err != nil {
+		x.Fail("construct", "%v", err)
+		return
+	}
+	es := []tk.Entry{{Key: ko, ID: 101}, {Key: ko2, ID: 102}}
+	me := tk.Entry{Key: km, ID: 100, Primary: true}
+	switch order {
+	case 0:
+		es = append([]tk.Entry{me}, es...)
+	case 1:
+		es = []tk.Entry{es[0], me, es[1]}
+	default:
+		es = append(es, me)
+	}
+	hd, err := tk.Handle(es)
+	if err != nil {
+		x.Fail("construct", "%v", err)
+		return
+	}
+	p, err := streamingaead.New(hd)
+	if err != nil {
+		x.Fail("construct", "%v", err)
+		return
+	}
+	x.NonTrivial()
+	desc := fmt.Sprintf("%s keyset: matching key (segments of %d) at position %d among keys with segments of %d and %d, read chunk %d", scheme, sizes[1], order, sizes[0], sizes[0]*2, rchunk)
+	aad := []byte("aad-5")
+	for _, nseg := range []int{1, 3, 5} {
+		L := cm.FirstPlain() + (nseg-1)*cm.OtherPlain() - 7
+		pt := plain(L)
+		salt, prefix := fixedSalt(cm)
+		ct := cm.StreamEncrypt(salt, prefix, aad, pt)
+		r, err := p.NewDecryptingReader(bytes.NewReader(ct), aad)
+		if err != nil {
+			x.Fail("construct", "%s: NewDecryptingReader: %v", desc, err)
+			return
+		}
+		var out []byte
+		if rchunk == 0 {
+			out, err = io.ReadAll(r)
+		} else {
+			buf := make([]byte, rchunk)
+			for {
+				n, e := r.Read(buf)
+				out = append(out, buf[:n]...)
+				if e == io.EOF {
+					break
+				}
+				if e != nil {
+					err = e
+					break
+				}
+			}
+		}
+		x.Eval(1)
+		if err != nil || !bytes.Equal(out, pt) {
+			x.Fail("error-on-valid-stream", "%s: a valid stream of %d segments (%d plaintext bytes) made for the matching key reads as %d bytes, err=%v", desc, nseg, L, len(out), err)
+			return
+		}
+	}
+	x.Outcome("mixed-segments/" + scheme)
 }
